@@ -4,6 +4,11 @@ manifest is valid at every commit)."""
 import json, os, sys
 
 CHECKS = {
+ "C07": ("model_checking",
+         "explicit-state breadth-first search over a reference model of the keymap; every transition replayed on a fresh real ui.State (key + settle under the scheduler's default schedule) and compared",
+         "9 start commands on a generated world (thread with ancestors and paged replies, actor with paged outbox, multi-author post with unfetchable parent, empty outbox, outbox with a missing second page, feed of two actors, empty feed, failing URL, empty collection); alphabet of 38 tokens (keymap keys, digits, Esc, Backspace, NUL/LF/0xC3, :open/:feed/unknown commands, a 20-digit number, 0 Enter, n .); model depth 3 (quick, about 10 000 transitions) / 5 at two geometries and preload values (thorough): after every transition mode, buffer, history length and index and the highlighted item equal the model's, no panic, no deadlock, quiescence reached, and every emitted frame has the terminal's height, is terminal-safe and leaks no attribute.",
+         "Trusted: lib/uimodel (world ground truth and keymap model written from the readme and the statement). A transition is key + settle (interleavings are C08's); keys the statement does not define while a number is being typed are crash-checked only; the preload window is not judged; history capped at 4 pages; preload_amount >= 1.",
+         "DESIGN.md §3 C07"),
  "C08": ("model_checking",
          "stateless schedule enumeration of the real UI and fan-out code under a cooperative scheduler: depth-first search with replay, preemption bound raised 0,1,2(,3), happens-before fingerprint pruning",
          "10 UI scenarios (open, feed, keys, resize, link selection, media hook, command line, racing loaders; each goroutine started as main does) and 6 pub-level scenarios (post fan-out, activity, two-page harvest, duplicate authors through the coalescing fetcher, NewSplicer, replenish), every schedule with at most 1 preemption in all of them and at most 2 in most (quick, 30 s per scenario, about 100 000 executions) / up to 3 (thorough, 8 min per scenario): the UI lock is held in every private State method and frame, frames never overlap, no deadlock or panic, loaders finish, frames have the terminal's height, every final state equals that of a non-preemptive (serial) schedule, constructed items are identical in all schedules, one request per URL.",
@@ -86,8 +91,8 @@ CHECKS = {
          "DESIGN.md §3 C13"),
  "C16": ("exploration",
          "complete enumeration of CenterVertically geometries; UI frames from the bounded UI exploration",
-         "All geometries prefix 0..7 x centred 1..7 x suffix 0..7 x height 2..10 (thorough: 0..12 / 1..12 / 0..12 / 2..30) with distinct line tokens: exactly h lines, block centred, rows above/below are the tail of the prefix / head of the suffix, ReplaceLastLine replaces only the last line.",
-         "Trusted: the expected-frame construction in checks/c16/geom.go. Frames from the real UI are added by the UI exploration when present in the evidence (ui_frames).",
+         "All geometries prefix 0..7 x centred 1..7 x suffix 0..7 x height 2..10 (thorough: 0..12 / 1..12 / 0..12 / 2..30) with distinct line tokens: exactly h lines, block centred, rows above/below are the tail of the prefix / head of the suffix, ReplaceLastLine replaces only the last line; plus every frame the real UI emits for heights 2..9, 4 start commands and all key sequences up to length 2/3 over 10 keys (and a resize): exactly as many lines as the terminal has rows.",
+         "Trusted: the expected-frame construction in checks/c16/geom.go. UI frames come from the real ui.State over the in-memory peer under the scheduler's default schedule (lib/uidrv, lib/uimodel world).",
          "DESIGN.md §3 C16"),
  "C17": ("exploration",
          "complete product of a JSON value grammar and all typed accessors against a reference classifier",
